@@ -453,6 +453,29 @@ pub open spec fn rows_below(a: CscMatrix<F>, bound: int) -> bool {
 //@struct file=src/solver/implementations/default/equilibration.rs name=DefaultEquilibrationData
 //@struct file=src/solver/implementations/default/settings.rs name=DefaultSettings rules=R1f
 //@struct file=src/solver/implementations/default/problemdata.rs name=DefaultProblemData keep=P,q,A,b,n,m,equilibration
+
+// C10 (real arithmetic): "the internal data equal c*D*P*D, E*A*D, c*D*q and E*b entry for entry", relative to a reference
+// state (X0, d0, e0, c0) and written without division:  X * (old scalings) == X0 * (new scalings)
+pub open spec fn rel_a(A: CscMatrix<F>, A0: CscMatrix<F>, e: Seq<F>, e0: Seq<F>, d: Seq<F>, d0: Seq<F>) -> bool {
+    forall|k: int, j: int| #[trigger] A0.in_col(k, j) ==>
+        A.nzval@[k].v() * (e0[A0.rowval@[k] as int].v() * d0[j].v()) == A0.nzval@[k].v() * (e[A0.rowval@[k] as int].v() * d[j].v())
+}
+pub open spec fn rel_p(P: CscMatrix<F>, P0: CscMatrix<F>, d: Seq<F>, d0: Seq<F>, c: F, c0: F) -> bool {
+    forall|k: int, j: int| #[trigger] P0.in_col(k, j) ==>
+        P.nzval@[k].v() * (c0.v() * (d0[P0.rowval@[k] as int].v() * d0[j].v())) == P0.nzval@[k].v() * (c.v() * (d[P0.rowval@[k] as int].v() * d[j].v()))
+}
+pub open spec fn rel_q(q: Seq<F>, q0: Seq<F>, d: Seq<F>, d0: Seq<F>, c: F, c0: F) -> bool {
+    q.len() == q0.len() && forall|j: int| 0 <= j < q0.len() ==> (#[trigger] q[j]).v() * (c0.v() * d0[j].v()) == q0[j].v() * (c.v() * d[j].v())
+}
+pub open spec fn rel_b(b: Seq<F>, b0: Seq<F>, e: Seq<F>, e0: Seq<F>) -> bool {
+    b.len() == b0.len() && forall|i: int| 0 <= i < b0.len() ==> (#[trigger] b[i]).v() * e0[i].v() == b0[i].v() * e[i].v()
+}
+pub proof fn lemma_rel3(x: real, x0: real, s0: real, s: real, f: real)
+    requires x * s0 == x0 * s,
+    ensures (x * f) * s0 == x0 * (s * f),
+{ assert((x * f) * s0 == (x * s0) * f) by(nonlinear_arith); assert(x0 * (s * f) == (x0 * s) * f) by(nonlinear_arith); }
+pub proof fn lemma_prod2(e: real, d: real, l: real, r: real) ensures (e * l) * (d * r) == (e * d) * (l * r) { assert((e * l) * (d * r) == (e * d) * (l * r)) by(nonlinear_arith); }
+pub proof fn lemma_prod3(c: real, a: real, b: real, ct: real) ensures (c * ct) * (a * b) == (c * (a * b)) * ct { assert((c * ct) * (a * b) == (c * (a * b)) * ct) by(nonlinear_arith); }
 pub open spec fn rect_ok(e: Seq<F>, delta: Seq<F>, i: int) -> bool {
     &&& exists|j: int| 0 <= j < e.len() && (#[trigger] e[j]).v() <= e[i].v() * delta[i].v()
     &&& exists|j: int| 0 <= j < e.len() && e[i].v() * delta[i].v() <= (#[trigger] e[j]).v()
@@ -682,6 +705,11 @@ impl DefaultProblemData<F> {
         within(final(self).equilibration.d@, settings.equilibrate_min_scaling.v(), settings.equilibrate_max_scaling.v()),
         within(final(self).equilibration.e@, settings.equilibrate_min_scaling.v(), settings.equilibrate_max_scaling.v()),
         settings.equilibrate_min_scaling.v() <= final(self).equilibration.c.v() <= settings.equilibrate_max_scaling.v(),
+        // C10 (real arithmetic): "the internal data equal c*D*P*D, E*A*D, c*D*q and E*b entry for entry" (relative to the data and scalings on entry)
+        rel_a(final(self).A, old(self).A, final(self).equilibration.e@, old(self).equilibration.e@, final(self).equilibration.d@, old(self).equilibration.d@),
+        rel_p(final(self).P, old(self).P, final(self).equilibration.d@, old(self).equilibration.d@, final(self).equilibration.c, old(self).equilibration.c),
+        rel_q(final(self).q@, old(self).q@, final(self).equilibration.d@, old(self).equilibration.d@, final(self).equilibration.c, old(self).equilibration.c),
+        rel_b(final(self).b@, old(self).b@, final(self).equilibration.e@, old(self).equilibration.e@),
 //@pre
         broadcast use real_arith;
 //@before_loop 1
@@ -691,6 +719,7 @@ impl DefaultProblemData<F> {
         let ghost mm = e@.len();
         let ghost lo = scale_min.v();
         let ghost hi = scale_max.v();
+        let ghost q0 = q@; let ghost b0 = b@; let ghost d0 = d@; let ghost e0 = e@; let ghost c0 = equil.c;
 //@loop 1
             invariant
                 P.same_pattern(&P0), A.same_pattern(&A0), P0.colptr_ok(), A0.colptr_ok(),
@@ -698,8 +727,54 @@ impl DefaultProblemData<F> {
                 q@.len() == nn, b@.len() == mm, d@.len() == nn, dwork@.len() == nn, e@.len() == mm, ework@.len() == mm,
                 lo == scale_min.v(), hi == scale_max.v(), 0real < lo <= 1real, 1real <= hi,
                 within(d@, lo, hi), within(e@, lo, hi), lo <= equil.c.v() <= hi,
+                d0.len() == nn, e0.len() == mm, q0.len() == nn, b0.len() == mm,
+                rel_a(*A, A0, e@, e0, d@, d0), rel_p(*P, P0, d@, d0, equil.c, c0), rel_q(q@, q0, d@, d0, equil.c, c0), rel_b(b@, b0, e@, e0),
 //@body_start 1
             broadcast use real_arith;
+            let ghost A1 = *A; let ghost P1 = *P; let ghost q1 = q@; let ghost b1 = b@; let ghost d1 = d@; let ghost e1 = e@; let ghost c1 = equil.c;
+//@before "scale_data(P, A, q, b, Some(dwork), ework);"
+            let ghost dw = dwork@; let ghost ew = ework@;
+//@after "e.hadamard(ework);" #1
+            proof {
+                assert forall|k: int, j: int| #[trigger] A0.in_col(k, j) implies
+                    A.nzval@[k].v() * (e0[A0.rowval@[k] as int].v() * d0[j].v()) == A0.nzval@[k].v() * (e@[A0.rowval@[k] as int].v() * d@[j].v()) by {
+                    let r = A0.rowval@[k] as int;
+                    assert(A1.in_col(k, j));
+                    lemma_prod2(e1[r].v(), d1[j].v(), ew[r].v(), dw[j].v());
+                    lemma_rel3(A1.nzval@[k].v(), A0.nzval@[k].v(), e0[r].v() * d0[j].v(), e1[r].v() * d1[j].v(), ew[r].v() * dw[j].v());
+                }
+                assert forall|k: int, j: int| #[trigger] P0.in_col(k, j) implies
+                    P.nzval@[k].v() * (c0.v() * (d0[P0.rowval@[k] as int].v() * d0[j].v())) == P0.nzval@[k].v() * (c1.v() * (d@[P0.rowval@[k] as int].v() * d@[j].v())) by {
+                    let r = P0.rowval@[k] as int;
+                    assert(P1.in_col(k, j));
+                    lemma_prod2(d1[r].v(), d1[j].v(), dw[r].v(), dw[j].v());
+                    let f = dw[r].v() * dw[j].v();
+                    lemma_rel3(P1.nzval@[k].v(), P0.nzval@[k].v(), c0.v() * (d0[r].v() * d0[j].v()), c1.v() * (d1[r].v() * d1[j].v()), f);
+                    assert((c1.v() * (d1[r].v() * d1[j].v())) * f == c1.v() * ((d1[r].v() * d1[j].v()) * f)) by(nonlinear_arith);
+                }
+                assert forall|j: int| 0 <= j < q0.len() implies (#[trigger] q@[j]).v() * (c0.v() * d0[j].v()) == q0[j].v() * (c1.v() * d@[j].v()) by {
+                    lemma_rel3(q1[j].v(), q0[j].v(), c0.v() * d0[j].v(), c1.v() * d1[j].v(), dw[j].v());
+                    assert((c1.v() * d1[j].v()) * dw[j].v() == c1.v() * (d1[j].v() * dw[j].v())) by(nonlinear_arith);
+                }
+                assert forall|i: int| 0 <= i < b0.len() implies (#[trigger] b@[i]).v() * e0[i].v() == b0[i].v() * e@[i].v() by {
+                    lemma_rel3(b1[i].v(), b0[i].v(), e0[i].v(), e1[i].v(), ew[i].v());
+                }
+            }
+            let ghost P2 = *P; let ghost q2 = q@;
+//@after "equil.c *= ctmp;"
+                proof {
+                    let ct = ctmp.v();
+                    assert forall|k: int, j: int| #[trigger] P0.in_col(k, j) implies
+                        P.nzval@[k].v() * (c0.v() * (d0[P0.rowval@[k] as int].v() * d0[j].v())) == P0.nzval@[k].v() * (equil.c.v() * (d@[P0.rowval@[k] as int].v() * d@[j].v())) by {
+                        let r = P0.rowval@[k] as int;
+                        lemma_rel3(P2.nzval@[k].v(), P0.nzval@[k].v(), c0.v() * (d0[r].v() * d0[j].v()), c1.v() * (d@[r].v() * d@[j].v()), ct);
+                        lemma_prod3(c1.v(), d@[r].v(), d@[j].v(), ct);
+                    }
+                    assert forall|j: int| 0 <= j < q0.len() implies (#[trigger] q@[j]).v() * (c0.v() * d0[j].v()) == q0[j].v() * (equil.c.v() * d@[j].v()) by {
+                        lemma_rel3(q2[j].v(), q0[j].v(), c0.v() * d0[j].v(), c1.v() * d@[j].v(), ct);
+                        assert((c1.v() * d@[j].v()) * ct == (c1.v() * ct) * d@[j].v()) by(nonlinear_arith);
+                    }
+                }
 //@loop 2
                 invariant r14_n1 == nn, d@.len() == nn, dwork@.len() == nn,
                     lo == scale_min.v(), hi == scale_max.v(), 0real < lo <= 1real, 1real <= hi, within(d@, lo, hi),
@@ -729,6 +804,19 @@ impl DefaultProblemData<F> {
                 }
 //@before "if cones.rectify_equilibration(ework, e)"
         let ghost e_before = e@;
+        let ghost A3 = *A; let ghost b3 = b@;
+//@before "equil.dinv.scalarop_from(F::recip, d);"
+            proof {
+                assert forall|k: int, j: int| #[trigger] A0.in_col(k, j) implies
+                    A.nzval@[k].v() * (e0[A0.rowval@[k] as int].v() * d0[j].v()) == A0.nzval@[k].v() * (e@[A0.rowval@[k] as int].v() * d@[j].v()) by {
+                    let r = A0.rowval@[k] as int;
+                    lemma_rel3(A3.nzval@[k].v(), A0.nzval@[k].v(), e0[r].v() * d0[j].v(), e_before[r].v() * d@[j].v(), ework@[r].v());
+                    assert((e_before[r].v() * d@[j].v()) * ework@[r].v() == (e_before[r].v() * ework@[r].v()) * d@[j].v()) by(nonlinear_arith);
+                }
+                assert forall|i: int| 0 <= i < b0.len() implies (#[trigger] b@[i]).v() * e0[i].v() == b0[i].v() * e@[i].v() by {
+                    lemma_rel3(b3[i].v(), b0[i].v(), e0[i].v(), e_before[i].v(), ework@[i].v());
+                }
+            }
 //@after "if cones.rectify_equilibration(ework, e)"
         proof {
             assert forall|i: int| 0 <= i < e@.len() implies lo <= (#[trigger] e@[i]).v() <= hi by {
